@@ -78,9 +78,12 @@ def main():
     kt = None
     if not c.args.only or 'kani' in c.args.only:
         kt = threading.Thread(target=kani_kernels, args=(c,)); kt.start()          # CBMC runs beside the rsym exploration
-    if c.setup():
+    ok = c.setup()
+    for npn in (c.gate_report or {}).get('native_panics', []):
+        c.add_violation('the native library panics on a document of the conformance corpus', {'docs': npn['docs']}, {'native': npn['native']}, role='native-bytes')
+    if ok:
         for label, kw in configs(c.tier):
-            c.run(label, 'rsym.he', 'PanicFree', kw, time_cap=200 if c.tier == 'quick' else 900)
+            c.run(label, 'rsym.he', 'PanicFree', kw, time_cap=600 if c.tier == 'quick' else 900)
         native_bytes(c, 150 if c.tier == 'quick' else 2000)
     if kt is not None: kt.join()
     c.finish(bounds={'scripts': [l for l, _ in configs(c.tier)], 'kani': 'starts_with_xmlns: all UTF-8 strings <= 7 (thorough: 8) bytes; remove_namespace: all UTF-8 strings of 1..4 (thorough: 5) bytes'},
